@@ -59,6 +59,10 @@ def main():
        "engines": [
          {"name": "symrun", "path": "symrun/", "serves_properties": [c["property_id"] for c in checks if c["engine"] == "symrun"],
           "kind_free_text": "proxy-based symbolic execution of the real Python code with z3 (decision-prefix replay); every obligation a solver query; counterexamples replayed natively before any VIOLATION"},
+         {"name": "pyts", "path": "pyts/", "serves_properties": ["C17"],
+          "kind_free_text": "AST of lazy_io.py -> guarded-command transition system (Lipton-reduced) -> z3 QF_BV bounded model checking with a symbolic schedule; counterexample and sample schedules replayed on the real classes under a line-level scheduler"},
+         {"name": "crosshair", "path": "props/ch_blocks.py", "serves_properties": ["C08"],
+          "kind_free_text": "CrossHair (crosshair-tool 0.0.110) symbolic execution of PEP316 contracts over the real blocks/zero_pad; second, independent encoding of C08"},
        ],
        "checks": checks,
        "notes": "All checks exit 0 = held within bounds, 1 = replayed VIOLATION, 2 = inconclusive/engine error (never reported as a pass). known_findings.json lists genuine defects (fixed ones suppress nothing).",
